@@ -28,42 +28,47 @@ fn orient<T: Bits>(result: &[T], es: &[T], se: &[T], matrix_left: bool) -> &'sta
     }
 }
 
+#[inline(never)]
+fn report<T: Bits>(out: &mut Out, tn: &str, opn: &str, side: &str, mat: &str, el: &str, sc: &str, want_shape: &str, res: Option<Matrix<T>>, es: &[T], se: &[T]) {
+    let op = format!("sc {tn} {opn} {side} {mat} {el} {sc} {want_shape}");
+    out.announce(&op);
+    let obs = match res {
+        None => "panic".to_string(),
+        Some(r) => {
+            let vals: Vec<T> = r.iter_elements().copied().collect();
+            let o = orient(&vals, es, se, side == "L");
+            let want = if side == "L" { "ES" } else { "SE" };
+            if o != want {
+                out.oracle_fail(&format!("{op}: result {:?}... is not `{}` applied elementwise", vals.iter().take(8).map(|v| v.bits()).collect::<Vec<_>>(), if side == "L" { "element op scalar" } else { "scalar op element" }));
+            }
+            format!("{o} {}", shape_str(&r))
+        }
+    };
+    out.count(&format!("op:{opn}"));
+    out.count(&format!("side:{side}"));
+    out.observe(&obs);
+}
+
 fn shape_str<T>(m: &Matrix<T>) -> String {
     format!("{} {}x{}", ord_ch(m.order()), m.nrows(), m.ncols())
 }
 
 macro_rules! one_op {
     ($out:expr, $t:ty, $tn:expr, $opn:expr, $op:tt, $opa:tt, $ev_l:expr, $s_l:expr, $ev_r:expr, $s_r:expr) => {{
-        for order in ORDERS {
+        for (order, nr, nc) in [(ORDERS[0], 2usize, 3usize), (ORDERS[1], 2, 3), (ORDERS[0], 64, 65), (ORDERS[1], 3, 1400)] {
             // ---- matrix on the left: element op scalar
-            let ev: Vec<$t> = $ev_l.iter().map(|&x| x as $t).collect();
+            let ev: Vec<$t> = (0..nr * nc).map(|k| $ev_l[k % 6] as $t).collect();
             let s: $t = $s_l as $t;
             let es: Vec<$t> = ev.iter().map(|&e| e $op s).collect();
             let se: Vec<$t> = es.clone(); // placeholder, recomputed where defined
             let _ = se;
-            let m: Matrix<$t> = mk_from(order, 2, 3, ev.clone());
+            let m: Matrix<$t> = mk_from(order, nr, nc, ev.clone());
             let mr: Matrix<&$t> = m.map_ref(|x| x).unwrap();
             let want_shape = shape_str(&m);
             macro_rules! emit {
-                ($side:expr, $mat:expr, $el:expr, $sc:expr, $res:expr, $es:expr, $se:expr) => {{
-                    let op = format!("sc {} {} {} {} {} {} {}", $tn, $opn, $side, $mat, $el, $sc, want_shape);
-                    $out.announce(&op);
-                    let obs = match catch(|| $res) {
-                        None => "panic".to_string(),
-                        Some(r) => {
-                            let vals: Vec<$t> = r.iter_elements().copied().collect();
-                            let o = orient(&vals, &$es, &$se, $side == "L");
-                            let want = if $side == "L" { "ES" } else { "SE" };
-                            if o != want {
-                                $out.oracle_fail(&format!("{op}: result {:?} is not `{}` applied elementwise", vals.iter().map(|v| v.bits()).collect::<Vec<_>>(), if $side == "L" { "element op scalar" } else { "scalar op element" }));
-                            }
-                            format!("{o} {}", shape_str(&r))
-                        }
-                    };
-                    $out.count(&format!("op:{}", $opn));
-                    $out.count(&format!("side:{}", $side));
-                    $out.observe(&obs);
-                }};
+                ($side:expr, $mat:expr, $el:expr, $sc:expr, $res:expr, $es:expr, $se:expr) => {
+                    report::<$t>($out, $tn, $opn, $side, $mat, $el, $sc, &want_shape, catch(|| $res), &$es, &$se)
+                };
             }
             // the "other orientation" for the left forms, only where it cannot overflow: use wrapping-free check by recomputation below
             let se_l: Vec<$t> = match catch(|| ev.iter().map(|&e| s $op e).collect::<Vec<$t>>()) { Some(v) => v, None => Vec::new() };
@@ -95,11 +100,11 @@ macro_rules! one_op {
                 $out.observe(&obs);
             }
             // ---- matrix on the right: scalar op element
-            let ev: Vec<$t> = $ev_r.iter().map(|&x| x as $t).collect();
+            let ev: Vec<$t> = (0..nr * nc).map(|k| $ev_r[k % 6] as $t).collect();
             let s: $t = $s_r as $t;
             let se: Vec<$t> = ev.iter().map(|&e| s $op e).collect();
             let es_r: Vec<$t> = match catch(|| ev.iter().map(|&e| e $op s).collect::<Vec<$t>>()) { Some(v) => v, None => Vec::new() };
-            let m: Matrix<$t> = mk_from(order, 2, 3, ev.clone());
+            let m: Matrix<$t> = mk_from(order, nr, nc, ev.clone());
             let mr: Matrix<&$t> = m.map_ref(|x| x).unwrap();
             let want_shape = shape_str(&m);
             emit!("R", "o", "v", "v", s $op m.clone(), es_r, se);
@@ -134,6 +139,55 @@ macro_rules! float_specials {
     ($out:expr, $t:ty, $tn:expr) => {{
         $out.case(&format!("scalar-forms float specials type={}", $tn));
         $out.nontrivial();
+        // awkward finite values: rounding makes `x / s` differ from `x * (1 / s)` etc.
+        for order in ORDERS {
+            for &s in &[49.0 as $t, 3.0, 0.1, 7.3e-5, 1e-39] {
+                let ev: [$t; 6] = [49.0, 1.0, 7.0, 0.3, 1e30, 5e-40];
+                let m: Matrix<$t> = mk_from(order, 2, 3, ev.to_vec());
+                let want_shape = shape_str(&m);
+                macro_rules! chk_assign {
+                    ($opn:expr, $opa:tt, $opb:tt) => {{
+                        for sc in ["v", "r"] {
+                            let op = format!("scassign {} {} {} {}", $tn, $opn, sc, want_shape);
+                            $out.announce(&op);
+                            let mut x = m.clone();
+                            if sc == "v" { x $opa s; } else { x $opa &s; }
+                            let vals: Vec<$t> = x.iter_elements().copied().collect();
+                            let exp: Vec<$t> = ev.iter().map(|&e| e $opb s).collect();
+                            let ok = vals.iter().zip(&exp).all(|(a, b)| a.to_bits() == b.to_bits());
+                            if !ok {
+                                $out.oracle_fail(&format!("{op} with scalar {s:?}: {:?} differs bitwise from {:?}", vals, exp));
+                            }
+                            $out.observe(&format!("{} {}", if ok { "ES" } else { "none" }, shape_str(&x)));
+                        }
+                    }};
+                }
+                chk_assign!("add", +=, +);
+                chk_assign!("sub", -=, -);
+                chk_assign!("mul", *=, *);
+                chk_assign!("div", /=, /);
+                chk_assign!("rem", %=, %);
+                macro_rules! chk2 {
+                    ($opn:expr, $side:expr, $res:expr, $exp:expr) => {{
+                        let op = format!("sc {} {} {} b v v {}", $tn, $opn, $side, want_shape);
+                        $out.announce(&op);
+                        let r: Matrix<$t> = $res;
+                        let vals: Vec<$t> = r.iter_elements().copied().collect();
+                        let exp: Vec<$t> = $exp;
+                        let ok = vals.iter().zip(&exp).all(|(a, b)| a.to_bits() == b.to_bits());
+                        if !ok {
+                            $out.oracle_fail(&format!("{op} with scalar {s:?}: {:?} differs bitwise from {:?}", vals, exp));
+                        }
+                        $out.observe(&format!("{} {}", if ok { if $side == "L" { "ES" } else { "SE" } } else { "none" }, shape_str(&r)));
+                    }};
+                }
+                chk2!("div", "L", &m / s, ev.iter().map(|&e| e / s).collect());
+                chk2!("div", "R", s / &m, ev.iter().map(|&e| s / e).collect());
+                chk2!("mul", "L", &m * s, ev.iter().map(|&e| e * s).collect());
+                chk2!("rem", "L", &m % s, ev.iter().map(|&e| e % s).collect());
+                chk2!("sub", "R", s - &m, ev.iter().map(|&e| s - e).collect());
+            }
+        }
         let ev: [$t; 6] = [0.0, -0.0, <$t>::INFINITY, <$t>::NEG_INFINITY, 1.5, -2.25];
         for order in ORDERS {
             for &s in &[0.0 as $t, -0.0, <$t>::INFINITY, 3.0] {
@@ -241,8 +295,8 @@ pub fn run_c18(out: &mut Out, _rng: &mut Rng, tier: Tier) -> String {
         out.oracle_fail(&format!("ledger at the end of the run: {} tokens still live, {} double drops", s.live, s.double_drops));
     }
     out.exhaustive = true;
-    "exhaustive over the impl table: 14 primitive types x {+,-,*,/,%} x 16 operator forms (matrix or &matrix, element or &element, scalar or &scalar, scalar left or right) + 2 assign forms, each on a 2x3 matrix in both storage orders \
+    "exhaustive over the impl table: 14 primitive types x {+,-,*,/,%} x 16 operator forms (matrix or &matrix, element or &element, scalar or &scalar, scalar left or right) + 2 assign forms, each on 2x3 matrices in both storage orders and on a 64x65 and a 3x1400 matrix (beyond any plausible small-size threshold) \
      with non-commutative witnesses (distinct non-zero operands, no overflow), results compared bitwise with the primitive operator applied in both orientations (the model supplies the orientation from the re-extracted table); \
-     float signed zeros / infinities; unary negation (owned and borrowed) for the 8 signed/float types; the generic scalar_operation family (three variants) with a recording closure on token matrices of every shape up to the bound. \
+     float signed zeros / infinities and awkward finite values (non-power-of-two and subnormal scalars, all assign forms); unary negation (owned and borrowed) for the 8 signed/float types; the generic scalar_operation family (three variants) with a recording closure on token matrices of every shape up to the bound. \
      A case = one primitive type (all its forms) or one shape".to_string()
 }
